@@ -1013,9 +1013,8 @@ impl<'a> Drop for ZipFile<'a> {
                 match reader.read(&mut buffer) {
                     Ok(0) => break,
                     Ok(_) => (),
-                    Err(e) => {
-                        panic!("Could not consume all of the output of the current ZipFile: {e:?}")
-                    }
+                    // Drop cannot report the failure; the next read from the stream will.
+                    Err(_) => break,
                 }
             }
         }
